@@ -288,7 +288,7 @@ RULE_ADD = {
     "C01": "Keys and values are handed over as slices of larger buffers (spare capacity filled with other bytes) that must be intact after the call; Batch objects are fresh, reused with Reset, pre-sized with MakeBatch or Loaded from another batch's Dump, and Len/Replay are compared with what was recorded.",
     "C04": "Two thirds of the cases use tail-mode set 1, which adds cuts at 4 KiB page and 32 KiB journal-block boundaries followed by zeros up to the old length; one case in six has the long-journal shape (write buffer 128 KiB-1 MiB, 3-33 KB values, batches of up to 8 x 4 KiB) so that journal records straddle block boundaries, and one in eight the long-manifest shape (1 KiB keys, 512-byte write buffer) so that manifest records do; every other writer of a burst uses DB.Write with a two-record batch.",
     "C11": "In the fault variant every other failed Commit (and failed Transaction.Put) is retried, twice at most, before the transaction is discarded.",
-    "C08": "Every other failed Transaction.Commit / Transaction.Put is retried (twice at most) instead of discarding at once. Iterators positioned with Seek (landing pair admissible, no certainly-existing key between the probe and the landing point unless an error is reported) and whole-DB iterator scans in both directions also run while faults are armed (every yielded pair admissible for its key, strictly ordered, no certainly-existing key skipped unless the iterator reports an error); a readfault shape arms one or two table open/read failures under such scans over a multi-level tree with cold caches.",
+    "C08": "A trfail shape: a transaction with tables of its own whose Commit meets manifest create/write/sync failures lasting through all its attempts and through the following Discard, then ordinary use. Every other failed Transaction.Commit / Transaction.Put is retried (twice at most) instead of discarding at once. Iterators positioned with Seek (landing pair admissible, no certainly-existing key between the probe and the landing point unless an error is reported) and whole-DB iterator scans in both directions also run while faults are armed (every yielded pair admissible for its key, strictly ordered, no certainly-existing key skipped unless the iterator reports an error); a readfault shape arms one or two table open/read failures under such scans over a multi-level tree with cold caches.",
     "C05": "CompactRange is a client operation too (no effect on the model). Has and snapshot Get are point reads of the model too; every other snapshot / iterator scan walks backwards (Last/Prev) and must yield the same cut.",
     "C10": "An observer goroutine takes snapshots throughout the run: the members of a write group (known from the trace) that wrote a key must all be visible in a snapshot or none of them. The caller's Batch must be byte-identical after DB.Write returns (a foreign record merged into it would be written again with it).",
     "C06": "Histories also contain recover (settle, Close, leveldb.Recover: every table re-registered in level 0 in file-number order), chain-forming churn (2-3 puts per buffer over 5-7 adjacent keys: transitive level-0 overlaps), sizeof, and in 30% of the cases a storage that delays table removal by 300 us.",
